@@ -34,6 +34,8 @@ One forward, flow-sensitive pass `Normalizer.block` does, statement by statement
     tuple / list / dict / set of literals) is replaced by the literal; likewise `self.NAME` / `cls.NAME` / `Cls.NAME`
     with exactly one class-level assignment to a literal and no store to it anywhere in the class.
 (h) docstrings, `pass`, annotations without value, logging calls are dropped; annotated assignments become plain ones.
+(j) arithmetic on two numeric literals, `"a" + "b"` and f-strings of string literals are folded; `getattr(o, "n")` == `o.n`;
+    `setattr(o, "n", v)` == `o.n = v`.
 (i) `if c: self.f = a else: self.f = b` == `self.f = a if c else b`; `dict(a=x, b=y)` == `{"a": x, "b": y}`; a bare
     `return` at the very end of the function is dropped.
 """
@@ -614,8 +616,8 @@ class Normalizer:
         return False
 
     def drop_dead(self, body):
-        """`name = <names / constants / literals of them>` whose name is never read is dropped (left-over aliases, the last
-        binding of an unrolled loop variable)"""
+        """`name = <side-effect-free expression>` whose name is never read is dropped (left-over aliases, the last binding of
+        an unrolled loop variable); the expression could at most have raised on a missing attribute / key"""
         def trivial(v):
             if isinstance(v, (ast.Name, ast.Constant)):
                 return True
@@ -634,7 +636,8 @@ class Normalizer:
                 out = []
                 for s in stmts:
                     if (isinstance(s, ast.Assign) and len(s.targets) == 1 and isinstance(s.targets[0], ast.Name)
-                            and s.targets[0].id not in loaded and s.targets[0].id not in self.fn_params and trivial(s.value)):
+                            and s.targets[0].id not in loaded and s.targets[0].id not in self.fn_params
+                            and (trivial(s.value) or self.pure(s.value))):
                         changed = True
                         continue
                     for fld in ("body", "orelse", "finalbody"):
@@ -731,6 +734,14 @@ class Normalizer:
             if isinstance(st.target, (ast.Name, ast.Attribute)):
                 st = ast.copy_location(ast.Assign(targets=[st.target], value=st.value), st)
         st = self.simple(st, env, depth)
+        if (isinstance(st, ast.Expr) and isinstance(st.value, ast.Call) and isinstance(st.value.func, ast.Name)
+                and st.value.func.id == "setattr" and len(st.value.args) == 3 and not st.value.keywords
+                and isinstance(st.value.args[1], ast.Constant) and isinstance(st.value.args[1].value, str)
+                and st.value.args[1].value.isidentifier()):
+            # setattr(obj, "name", v) == obj.name = v
+            st = ast.fix_missing_locations(ast.copy_location(ast.Assign(
+                targets=[ast.Attribute(value=st.value.args[0], attr=st.value.args[1].value, ctx=ast.Store())],
+                value=st.value.args[2]), st))
         # statement-level inlining (a)
         spliced = self.inline_statement(st, env, depth)
         if spliced is not None:
@@ -801,7 +812,51 @@ class Normalizer:
                     # dict(a=x, b=y) == {"a": x, "b": y}
                     return ast.Dict(keys=[ast.Constant(value=k.arg) for k in node.keywords],
                                     values=[k.value for k in node.keywords])
+                if (isinstance(node.func, ast.Name) and node.func.id == "getattr" and len(node.args) == 2 and not node.keywords
+                        and isinstance(node.args[1], ast.Constant) and isinstance(node.args[1].value, str)
+                        and node.args[1].value.isidentifier()):
+                    return ast.Attribute(value=node.args[0], attr=node.args[1].value, ctx=ast.Load())
                 return node
+
+            def visit_BinOp(self, node):
+                self.generic_visit(node)
+                l, r = node.left, node.right
+                if isinstance(l, ast.Constant) and isinstance(r, ast.Constant):
+                    a, b = l.value, r.value
+                    num = lambda x: isinstance(x, (int, float)) and not isinstance(x, bool)
+                    try:
+                        if isinstance(a, str) and isinstance(b, str) and isinstance(node.op, ast.Add):
+                            return ast.Constant(value=a + b)           # "_" + "row"
+                        if num(a) and num(b):
+                            # the arithmetic python itself would do on the two literals (same floats)
+                            if isinstance(node.op, ast.Add):
+                                return ast.Constant(value=a + b)
+                            if isinstance(node.op, ast.Sub):
+                                return ast.Constant(value=a - b)
+                            if isinstance(node.op, ast.Mult):
+                                return ast.Constant(value=a * b)
+                            if isinstance(node.op, ast.Div) and b != 0:
+                                return ast.Constant(value=a / b)
+                            if isinstance(node.op, ast.Pow) and abs(b) <= 64 and abs(a) <= 1e6:
+                                v = a ** b
+                                if num(v):
+                                    return ast.Constant(value=v)
+                    except (OverflowError, ZeroDivisionError, ValueError):
+                        pass
+                return node
+
+            def visit_JoinedStr(self, node):
+                self.generic_visit(node)
+                parts = []
+                for v in node.values:
+                    if isinstance(v, ast.Constant) and isinstance(v.value, str):
+                        parts.append(v.value)
+                    elif (isinstance(v, ast.FormattedValue) and v.conversion == -1 and v.format_spec is None
+                          and isinstance(v.value, ast.Constant) and isinstance(v.value.value, str)):
+                        parts.append(v.value.value)
+                    else:
+                        return node
+                return ast.Constant(value="".join(parts))                # f"_{'row'}"
 
             def visit_UnaryOp(self, node):
                 self.generic_visit(node)
